@@ -272,6 +272,19 @@ pub fn all_perms(n: usize) -> Vec<Vec<usize>> {
     out
 }
 
+/// verdicts of the rule optimised with every switch on
+fn verdicts_optimised(r: &RuleAst, maps: &[serde_yaml::Mapping]) -> Option<Vec<bool>> {
+    let t = r.to_text()?;
+    let rule = eng::load_ok(&t)?;
+    let o = eng::optimise(&rule, eng::Sw(15)).ok()?;
+    maps.iter().map(|m| eng::matches(&o, m).ok()).collect()
+}
+
+/// optimisation is verdict-preserving for this rule as far as C01's open findings go
+fn clean_for_optimisation(r: &RuleAst) -> bool {
+    crate::c01::triggers(r).is_empty() && !gen::tags(r).iter().any(|t| t.starts_with("cond-all") || t.starts_with("cond-of"))
+}
+
 fn verdicts(r: &RuleAst, maps: &[serde_yaml::Mapping]) -> Option<Vec<bool>> {
     let t = r.to_text()?;
     let rule = eng::load_ok(&t)?;
@@ -335,9 +348,27 @@ pub fn run(ctx: &Ctx) -> i32 {
                 if probe0.iter().any(|b| *b) && probe0.iter().any(|b| !*b) {
                     rep.nontrivial_key(&format!("{}|{}|{}", kind, k, gen::tag_key(&gen::tags(&pr0))));
                 }
-                for perm in perms.iter().skip(1) {
+                // a spread of the orders is also evaluated in optimised form (probe rules of the
+                // clean stratum only: there optimisation preserves verdicts)
+                let opt_idx: Vec<usize> = if clean_for_optimisation(&pr0) { vec![1, perms.len() - 1, perms.len() / 2, perms.len() / 3] } else { vec![] };
+                for (pi, perm) in perms.iter().enumerate().skip(1) {
                     let pa = apply(&ast, p, perm);
                     let pp = probe(&pa, p);
+                    if opt_idx.contains(&pi) {
+                        rep.evaluations += maps.len() as u64;
+                        rep.count("optimised_orders");
+                        if let Some(v) = verdicts_optimised(&pp, &maps) {
+                            if let Some(i) = (0..v.len()).find(|i| v[*i] != probe0[*i]) {
+                                rep.violation(
+                                    "truth-differs-optimised",
+                                    &format!("c17-truth-opt:{}:{}", kind, gen::tag_key(&gen::tags(&pr0))),
+                                    &format!("reordering the operands of a {} ({:?}) changes whether the optimised rule is true: {} -> {} on {}", kind, perm, probe0[i], v[i], docs[i].to_json_text()),
+                                    mon::case(&pp.to_text().unwrap_or_default(), &docs[i], Some(eng::Sw(15)), json!(probe0[i]), json!(v[i]), json!({"original_order_rule": pr0.to_text(), "permutation": perm})),
+                                );
+                                break;
+                            }
+                        }
+                    }
                     rep.evaluations += maps.len() as u64;
                     match verdicts(&pp, &maps) {
                         None => {
@@ -384,7 +415,7 @@ pub fn run(ctx: &Ctx) -> i32 {
         ctx,
         rep,
         Meta {
-            rule: "generated rules; for every commutative position (members of a list, mappings of a sequence, entries of a mapping incl. nested ones, maximal and/or chains of the condition) all permutations for <= 4 operands (24 sampled beyond) x rule-aware documents; (1) the permuted part, as the whole condition of a probe rule, must be true for the same documents in every order; (2) the full rule's verdict must not change when the position is not underneath a negation or none-of quantifier. non-trivial = position whose truth differs across the documents; distinct by (position kind, arity, feature tags of the part)".into(),
+            rule: "generated rules; for every commutative position (members of a list, mappings of a sequence, entries of a mapping incl. nested ones, maximal and/or chains of the condition) all permutations for <= 4 operands (24 sampled beyond) x rule-aware documents; (1) the permuted part, as the whole condition of a probe rule, must be true for the same documents in every order; (2) the full rule's verdict must not change when the position is not underneath a negation or none-of quantifier; (3) for probe rules in C01's clean stratum a spread of the orders is also evaluated fully optimised and must be true for the same documents. non-trivial = position whose truth differs across the documents; distinct by (position kind, arity, feature tags of the part)".into(),
             exhaustive: false,
             assumptions: vec!["under negation only the truth of the permuted part is compared (first-non-true 'and' legitimately yields false or missing depending on order)".into()],
             min_nontrivial: 100,
